@@ -26,6 +26,10 @@ pub enum Cmd {
     AuthWrong,
     /// right = the session kind's own credential for that database
     UseDb { db: String, right: bool },
+    /// a use-db in the other credential form (a user session using the two-argument database-token form, any other
+    /// session using the three-argument user form) with a WRONG credential: it must fail and leave the selection,
+    /// including the user the session is bound to, untouched
+    UseDbOtherFormWrong { db: String },
     Data { word: String, key: String },
     Keys { pattern: String },
     UnwatchAll,
@@ -84,6 +88,7 @@ fn cmd_strategy() -> impl Strategy<Value = Cmd> {
         1 => Just(Cmd::AuthOk),
         1 => Just(Cmd::AuthWrong),
         4 => (select(vec!["d", "d", "e", "nosuch"]), prop::bool::weighted(0.7)).prop_map(|(db, right)| Cmd::UseDb { db: db.to_string(), right }),
+        2 => select(vec!["d", "d", "e", "nosuch"]).prop_map(|db| Cmd::UseDbOtherFormWrong { db: db.to_string() }),
         10 => (select(vec!["get", "get-safe", "set", "set-safe", "remove", "increment", "watch", "unwatch"]), key.clone()).prop_map(|(w, key)| Cmd::Data { word: w.to_string(), key }),
         1 => select(vec!["*", "a*", ""]).prop_map(|p| Cmd::Keys { pattern: p.to_string() }),
         1 => Just(Cmd::UnwatchAll),
@@ -159,6 +164,10 @@ fn render(kind: &Kind, cmd: &Cmd) -> String {
         Cmd::AuthOk => format!("auth {} {}", crate::node::USER, crate::node::PWD),
         Cmd::AuthWrong => format!("auth {} nope", crate::node::USER),
         Cmd::UseDb { db, right } => format!("use-db {} {}", db, token_for(kind, db, *right)),
+        Cmd::UseDbOtherFormWrong { db } => match kind {
+            Kind::UserBob | Kind::UserAll => format!("use-db {} not-the-token", db),
+            _ => format!("use-db {} bob not-bobs-token", db),
+        },
         Cmd::Data { word, key } => match word.as_str() {
             "set" => format!("set {} v-{}", key, word),
             "set-safe" => format!("set-safe {} 50 v-{}", key, word),
@@ -265,6 +274,7 @@ fn step(w: &mut World, kinds: &[Kind], st: &Step, flags: &mut Flags) -> Option<(
             let mut key_of: Option<String> = None;
             let expect = match cmd {
                 Cmd::AuthOk | Cmd::AuthWrong => Expect::Accept,
+                Cmd::UseDbOtherFormWrong { .. } => Expect::Refuse,
                 Cmd::UseDb { db, right } => {
                     let exists = db == "d" || db == "e";
                     let user_exists_there = match kind {
@@ -369,7 +379,7 @@ fn step(w: &mut World, kinds: &[Kind], st: &Step, flags: &mut Flags) -> Option<(
                         if let Cmd::Arbiter = cmd {
                             return Some(("C09|arbiter|user-without-read-grant|accepted".to_string(), format!("{:?} (perms {:?}) sends \"arbiter\" and is registered for conflict notices although it has no read grant at all: {} {:?}", kind, w.bob_perms, resp_text(&r), msgs)));
                         }
-                        if changed || data || matches!(cmd, Cmd::UseDb { .. } | Cmd::Data { .. } | Cmd::Resolve { .. }) {
+                        if changed || data || matches!(cmd, Cmd::UseDb { .. } | Cmd::UseDbOtherFormWrong { .. } | Cmd::Data { .. } | Cmd::Resolve { .. }) {
                             return Some((format!("C09|{}|{}|{}", word_of(&line), who, what), format!("{:?} sends {:?}: must be refused, got {} {:?}{}", kind, line, resp_text(&r), msgs, if changed { " and the state changed" } else { "" })));
                         }
                     } else {
@@ -384,7 +394,11 @@ fn step(w: &mut World, kinds: &[Kind], st: &Step, flags: &mut Flags) -> Option<(
                         }
                     }
                     // failed use-db leaves the previous selection in force
-                    if let Cmd::UseDb { .. } = cmd {
+                    if let Cmd::UseDb { .. } | Cmd::UseDbOtherFormWrong { .. } = cmd {
+                        let now_user = w.sessions[*s].client.selected_db_user_name();
+                        if now_user != sel_user {
+                            return Some((format!("C09|use-db|{}|failed-use-db-changed-the-session-user", who), format!("{:?}: {:?} failed but the user the session is bound to went {:?} -> {:?}", kind, line, sel_user, now_user)));
+                        }
                         let now = w.sessions[*s].client.selected_db_name();
                         if now != sel_db {
                             return Some((format!("C09|use-db|{}|failed-use-db-changed-selection", who), format!("{:?}: {:?} failed but selection went {:?} -> {:?}", kind, line, sel_db, now)));
@@ -507,6 +521,8 @@ fn matrix() -> Vec<Case> {
         (Kind::DbToken, vec![Cmd::UseDb { db: "d".into(), right: true }]),
         (Kind::DbToken, vec![Cmd::UseDb { db: "d".into(), right: true }, Cmd::UseDb { db: "e".into(), right: false }]),
         (Kind::UserBob, vec![Cmd::UseDb { db: "d".into(), right: true }]),
+        (Kind::UserBob, vec![Cmd::UseDb { db: "d".into(), right: true }, Cmd::UseDbOtherFormWrong { db: "d".into() }]),
+        (Kind::UserBob, vec![Cmd::UseDb { db: "d".into(), right: true }, Cmd::UseDbOtherFormWrong { db: "e".into() }]),
         (Kind::UserBob, vec![Cmd::UseDb { db: "d".into(), right: false }]),
         (Kind::UserAll, vec![Cmd::UseDb { db: "d".into(), right: true }]),
         (Kind::Admin, vec![Cmd::AuthOk, Cmd::UseDb { db: "d".into(), right: true }]),
